@@ -8,9 +8,11 @@ import (
 	"os"
 	"sort"
 	"strings"
+	"sync"
 	"testing"
 
 	"github.com/biogo/biogo/alphabet"
+	"github.com/biogo/biogo/feat"
 	"github.com/biogo/biogo/index/kmerindex"
 	"github.com/biogo/biogo/seq/linear"
 	"pgregory.net/rapid"
@@ -28,16 +30,39 @@ type kmerCase struct {
 	End   int    `json:"end"`
 	RNA   bool   `json:"rna,omitempty"`
 	Probe []int  `json:"probe,omitempty"` // extra word codes to query (mod 4^k)
+	// Alpha, when set, is the definition of a user-built case-insensitive
+	// four-letter alphabet (any letters, any order, declared in either case).
+	Alpha string `json:"alpha,omitempty"`
+	// OStart, OEnd: the range iterated on Other (independent of the indexed
+	// sequence: Other may be longer than it).
+	OStart int `json:"ostart,omitempty"`
+	OEnd   int `json:"oend,omitempty"`
 }
 
 func (c kmerCase) letters() string {
+	if c.Alpha != "" {
+		return strings.ToLower(c.Alpha)
+	}
 	if c.RNA {
 		return "acgu"
 	}
 	return "acgt"
 }
 
+var customAlphabets sync.Map
+
 func (c kmerCase) alpha() alphabet.Alphabet {
+	if c.Alpha != "" {
+		if a, ok := customAlphabets.Load(c.Alpha); ok {
+			return a.(alphabet.Alphabet)
+		}
+		a, err := alphabet.NewAlphabet(c.Alpha, feat.DNA, '-', 'n', false)
+		if err != nil {
+			panic(fmt.Sprintf("harness: NewAlphabet(%q): %v", c.Alpha, err))
+		}
+		customAlphabets.Store(c.Alpha, a)
+		return a
+	}
 	if c.RNA {
 		return alphabet.RNA
 	}
@@ -123,20 +148,15 @@ func check(c kmerCase) *vlib.Failure {
 	if f := iter("range", s, c.Seq, c.Start, c.End); f != nil {
 		return f
 	}
-	if c.Other != "" {
+	otherIter := func(tag string) *vlib.Failure {
+		if c.Other == "" {
+			return nil
+		}
 		o := linear.NewSeq("o", alphabet.BytesToLetters([]byte(c.Other)), c.alpha())
-		st, en := c.Start, c.End
-		if en > len(c.Other) {
-			en = len(c.Other)
-		}
-		if st > en {
-			st = en
-		}
-		if st+c.K-1 <= len(c.Other) {
-			if f := iter("other-sequence", o, c.Other, st, en); f != nil {
-				return f
-			}
-		}
+		return iter(tag, o, c.Other, c.OStart, c.OEnd)
+	}
+	if f := otherIter("other-sequence"); f != nil {
+		return f
 	}
 
 	// frequencies before Build
@@ -173,6 +193,20 @@ func check(c kmerCase) *vlib.Failure {
 		want := positions[w]
 		if !equalInts(g, want) {
 			return vlib.Failf("positions", "KmerPositions(%s) = %v, the word occurs at %v (seq %q k=%d)", wordOf(letters, c.K, w), clipI(g), clipI(want), clip(c.Seq), c.K)
+		}
+		// the caller may do what it likes with the returned slice: the next
+		// answer for the same word is unaffected
+		for i := range got {
+			got[i] = -7 - i
+		}
+		if len(got) > 0 {
+			got = append(got[:0], got[len(got)-1])
+		}
+		again, err := ki.KmerPositions(kmerindex.Kmer(w))
+		g = append([]int(nil), again...)
+		sort.Ints(g)
+		if err != nil || !equalInts(g, want) {
+			return vlib.Failf("positions", "KmerPositions(%s) asked again after the caller overwrote the first answer = %v, %v; the word occurs at %v", wordOf(letters, c.K, w), clipI(g), err, clipI(want))
 		}
 		word := wordOf(letters, c.K, w)
 		if w%3 == 0 {
@@ -239,6 +273,9 @@ func check(c kmerCase) *vlib.Failure {
 	if f := iter("range-after-build", s, c.Seq, c.Start, c.End); f != nil {
 		return f
 	}
+	if f := otherIter("other-sequence-after-build"); f != nil {
+		return f
+	}
 
 	// encoding / formatting / GC / reverse complement against string operations
 	words := c.Probe
@@ -270,7 +307,7 @@ func check(c kmerCase) *vlib.Failure {
 				gc++
 			}
 		}
-		if got, want := ki.GCof(kmerindex.Kmer(w)), float64(gc)/float64(c.K); got != want {
+		if got, want := ki.GCof(kmerindex.Kmer(w)), float64(gc)/float64(c.K); (letters == "acgt" || letters == "acgu") && got != want {
 			return vlib.Failf("gc", "GCof(%s) = %v want %v", word, got, want)
 		}
 		rc := code(letters, revcomp(letters, word))
@@ -358,6 +395,18 @@ func classes(c kmerCase) []string {
 	if strings.ToLower(c.Seq) != c.Seq {
 		l = append(l, "upper-case")
 	}
+	if c.Alpha != "" {
+		l = append(l, "user-built-alphabet")
+		if strings.ToLower(c.Alpha) != c.Alpha {
+			l = append(l, "user-built-alphabet-declared-in-upper-case")
+		}
+	}
+	if c.Other != "" {
+		l = append(l, "foreign-sequence")
+		if c.OEnd > len(c.Seq) {
+			l = append(l, "foreign-range-beyond-indexed-length")
+		}
+	}
 	l = append(l, fmt.Sprintf("k=%d", c.K))
 	if inner && lastWindow && repeated {
 		l = append(l, vlib.NT)
@@ -402,6 +451,10 @@ func genSeq(t *rapid.T, letters string, n int, label string) string {
 
 func gen(t *rapid.T) kmerCase {
 	c := kmerCase{RNA: rapid.IntRange(0, 5).Draw(t, "rna") == 0}
+	if rapid.IntRange(0, 4).Draw(t, "user-alphabet") == 0 {
+		c.RNA = false
+		c.Alpha = rapid.SampledFrom([]string{"ACGT", "AcGt", "acgt", "tgca", "TGCA", "wxyz", "WXyz", "ACGU", "gatc", "Gatc"}).Draw(t, "alpha")
+	}
 	c.K = rapid.SampledFrom([]int{4, 4, 4, 5, 5, 6, 6, 7, 8, 9, 10}).Draw(t, "k")
 	maxLen := 300
 	if vlib.Thorough() {
@@ -425,8 +478,19 @@ func gen(t *rapid.T) kmerCase {
 			c.End = rapid.IntRange(min(c.Start+c.K, n), n).Draw(t, "end")
 		}
 	}
-	if rapid.IntRange(0, 3).Draw(t, "other") == 0 {
-		c.Other = genSeq(t, c.letters(), rapid.IntRange(c.K+1, 80).Draw(t, "on"), "other")
+	if rapid.IntRange(0, 2).Draw(t, "other") == 0 {
+		on := rapid.OneOf(rapid.IntRange(c.K, 80), rapid.IntRange(n+1, n+60), rapid.IntRange(c.K, maxLen)).Draw(t, "on")
+		c.Other = genSeq(t, c.letters(), on, "other")
+		switch rapid.IntRange(0, 3).Draw(t, "orange-class") {
+		case 0:
+			c.OStart, c.OEnd = 0, on
+		case 1:
+			c.OStart = rapid.IntRange(0, on-c.K).Draw(t, "ostart")
+			c.OEnd = c.OStart + rapid.IntRange(0, c.K).Draw(t, "oshort")
+		default:
+			c.OStart = rapid.IntRange(0, on-c.K).Draw(t, "ostart")
+			c.OEnd = rapid.IntRange(min(c.OStart+c.K, on), on).Draw(t, "oend")
+		}
 	}
 	np := rapid.IntRange(0, 6).Draw(t, "nprobe")
 	for i := 0; i < np; i++ {
